@@ -13,6 +13,7 @@ import (
 	"os"
 	"reflect"
 	"runtime"
+	"strings"
 	"sync"
 	"testing"
 	"time"
@@ -59,7 +60,7 @@ func TestC02Stress(t *testing.T) {
 		G := len(plans)
 		q := quiesce(w, nT)
 		h := conc.Index(w.Log)
-		fs := conc.CheckIntervals(w, h, q, nil)
+		fs := conc.CheckIntervals(w, h, q, w.Cancelled)
 		for _, f := range fs {
 			run.Violation(f.Sig, f.Desc, map[string]any{"case": i, "gomaxprocs": procs[i%len(procs)], "plans": plans, "history": w.Log})
 		}
@@ -260,4 +261,77 @@ func TestC02Gates(t *testing.T) {
 	run.Count("gate_grid_size", int64(idx))
 	_ = rand.Int
 	_ = os.Getenv
+}
+
+// TestC02UnsubStorm: 18 registrations of one type (every handler class), removed concurrently by 2-3
+// goroutines from a barrier while a publisher runs: every Unsubscribe must find exactly its own
+// registration — the lookup and the removal have no user code between them, so only repetition
+// reaches that window.
+func TestC02UnsubStorm(t *testing.T) {
+	run := vk.New("C02", "unsubscribe-storm")
+	defer run.Finish()
+	all := evt.Drivers()
+	n := run.Scale(1500, 40000)
+	procs := []int{2, 4, 16, 3}
+	defer runtime.GOMAXPROCS(runtime.GOMAXPROCS(0))
+	for i := 0; i < n; i++ {
+		rng := run.Rand(uint64(i))
+		runtime.GOMAXPROCS(procs[i%len(procs)])
+		w := conc.NewWorld(conc.SameShardTypes(all, 1, rng.Uint64()), rng.Uint64(), true)
+		w.NoisePct = 0
+		var regs []*conc.Reg
+		for c := 0; c < evt.NumPlain; c++ {
+			regs = append(regs, &conc.Reg{T: 0, Class: c})
+		}
+		for c := 0; c < evt.NumCtx; c++ {
+			regs = append(regs, &conc.Reg{T: 0, Class: c, Ctx: true})
+		}
+		rng.Shuffle(len(regs), func(a, b int) { regs[a], regs[b] = regs[b], regs[a] })
+		for _, r := range regs {
+			w.Subscribe(90, r)
+		}
+		G := 2 + rng.IntN(2)
+		var wg sync.WaitGroup
+		start := make(chan struct{})
+		for g := 0; g < G; g++ {
+			var mine []*conc.Reg
+			for k, r := range regs {
+				if k%G == g {
+					mine = append(mine, r)
+				}
+			}
+			wg.Add(1)
+			go func(g int, mine []*conc.Reg) {
+				defer wg.Done()
+				<-start
+				for _, r := range mine {
+					w.Unsubscribe(g, r)
+				}
+			}(g, mine)
+		}
+		wg.Add(1)
+		go func() {
+			defer wg.Done()
+			<-start
+			for k := 0; k < 3; k++ {
+				w.Publish(50, 0, nil)
+			}
+		}()
+		close(start)
+		wg.Wait()
+		q := quiesce(w, 1)
+		h := conc.Index(w.Log)
+		for _, f := range conc.CheckIntervals(w, h, q, nil) {
+			run.Violation("storm:"+f.Sig, f.Desc, map[string]any{"case": i, "goroutines": G, "gomaxprocs": procs[i%len(procs)], "history": w.Log})
+		}
+		sig, _ := conc.OverlapSignature(w.Log)
+		ov := strings.Contains(sig, "unsub~unsub")
+		run.Case(fmt.Sprintf("G%d ov%v p%d", G, ov, procs[i%len(procs)]), ov)
+		if ov {
+			run.Count("rounds_with_overlapping_unsubscribes", 1)
+		}
+		if i == 0 {
+			run.Sample(map[string]any{"goroutines": G, "registrations": len(regs), "overlaps": sig})
+		}
+	}
 }
